@@ -19,16 +19,38 @@ def flag_vars(cfg: CFG) -> Set[str]:
     sensitivity)."""
     if '_flag_vars' in cfg.__dict__:
         return cfg.__dict__['_flag_vars']
-    good: Dict[str, bool] = {}
+    # locals (and parameters) that are tested as a bare name somewhere, or copied into such a name
+    out = set()
     for n in cfg.nodes:
-        if n.kind == 'store_name':
-            name = n.meta['name']
-            v = n.meta.get('value')
-            ok = isinstance(v, ast.Constant) and isinstance(v.value, bool)
-            good[name] = good.get(name, True) and ok
-        elif n.kind in ('del_name',):
-            good[n.meta['name']] = False
-    out = {k for k, v in good.items() if v and k not in cfg.scope.params}
+        if n.kind == 'branch' and isinstance(n.meta['test'], ast.Name):
+            out.add(n.meta['test'].id)
+    changed = True
+    while changed:
+        changed = False
+        for n in cfg.nodes:
+            if n.kind == 'store_name' and n.meta['name'] in out:
+                v = n.meta.get('value')
+                src = v.operand if isinstance(v, ast.UnaryOp) and isinstance(v.op, ast.Not) else v
+                if isinstance(src, ast.Name) and src.id not in out:
+                    out.add(src.id)
+                    changed = True
+    for n in cfg.nodes:
+        if n.kind == 'del_name':
+            out.discard(n.meta['name'])
+    # truthiness of a mutable object can change without re-assignment: drop every name that is
+    # ever used as the receiver of a method call, subscripted, or captured by a nested function
+    def scan(fn_node):
+        for x in ast.walk(fn_node):
+            if isinstance(x, ast.Attribute) and isinstance(x.value, ast.Name):
+                out.discard(x.value.id)
+            elif isinstance(x, ast.Subscript) and isinstance(x.value, ast.Name):
+                out.discard(x.value.id)
+            elif isinstance(x, ast.Starred) and isinstance(x.value, ast.Name):
+                out.discard(x.value.id)
+    scan(cfg.scope.node)
+    for nn in cfg.nodes:
+        if nn.meta.get('inlined') and nn.ast is not None and nn.kind in ('call', 'store_sub', 'del_sub', 'load_sub'):
+            scan(nn.ast)
     # not if declared nonlocal/global or captured & written by a nested function
     for ch in cfg.scope.children:
         for nn in own_nodes(ch.node):
@@ -99,18 +121,82 @@ def _step(cfg: CFG, flags: Set[str], node: Node, env: Env, e: Edge) -> Optional[
                 val = _env_get(env, '@' + rm[0])
                 if val is not None and val != (e.label == 'true'):
                     return None
-    if node.kind == 'branch' and e.label in ('true', 'false') and flags:
-        ft = _flag_test(node.meta['test'], flags)
-        if ft is not None:
-            name, pol = ft
-            val = _env_get(env, name)
-            if val is not None:
+    if not flags:
+        return env
+    # boolean locals: a value tested twice without being re-assigned gives the same answer;
+    # copies (`a = b`) and negations (`a = not b`) share the token of their source
+    if node.kind == 'branch' and e.label in ('true', 'false'):
+        t = node.meta['test']
+        if isinstance(t, ast.Name) and t.id in flags:
+            tok = _env_get(env, t.id)
+            if tok is None and t.id in cfg.scope.params:
+                tok = ('p', t.id)
+            if tok is not None:
+                base, neg = _strip_neg(tok)
                 taken = (e.label == 'true')
-                if (val == pol) != taken:
-                    return None
+                if base[0] == 'c':
+                    if (base[1] ^ neg) != taken:
+                        return None
+                else:
+                    key = '#' + repr(base)
+                    want = taken ^ neg
+                    prior = _env_get(env, key)
+                    if prior is not None and prior != want:
+                        return None
+                    env = _env_set(env, key, want)
     if node.kind == 'store_name' and node.meta['name'] in flags and e.label not in ('exc',):
-        v = node.meta['value']
-        env = _env_set(env, node.meta['name'], bool(v.value))
+        v = node.meta.get('value')
+        stmt = node.meta.get('stmt')
+        if isinstance(stmt, ast.AugAssign) or (node.meta.get('inlined_param') and isinstance(v, ast.Name) and v.id == node.meta['name']):
+            tok = _env_get(env, node.meta['name']) if node.meta.get('inlined_param') else ('v', node.id)
+            if tok is None:
+                return env
+        elif isinstance(v, ast.Constant) and isinstance(v.value, bool):
+            tok = ('c', v.value)
+        elif isinstance(v, ast.Name) and v.id in flags:
+            tok = _env_get(env, v.id) or (('p', v.id) if v.id in cfg.scope.params else ('v', node.id))
+        elif isinstance(v, ast.UnaryOp) and isinstance(v.op, ast.Not):
+            if isinstance(v.operand, ast.Name) and v.operand.id in flags:
+                src = _env_get(env, v.operand.id) or (('p', v.operand.id) if v.operand.id in cfg.scope.params else ('v', node.id))
+                tok = ('n', src)
+            else:
+                tok = ('n', ('v', node.id))
+        else:
+            tok = ('v', node.id)
+        base, _ = _strip_neg(tok)
+        if base == ('v', node.id):
+            # a fresh value: forget what an earlier iteration decided about it
+            env = tuple(kv for kv in env if kv[0] != '#' + repr(base))
+        env = _env_set(env, node.meta['name'], tok)
+    return env
+
+
+def _strip_neg(tok):
+    neg = False
+    while tok[0] == 'n':
+        neg = not neg
+        tok = tok[1]
+    return tok, neg
+
+
+def decisions(env: Env) -> Dict[tuple, bool]:
+    """{token: truth} decided on the way (tokens ('v', node id) / ('p', name))."""
+    out = {}
+    for k, v in env:
+        if isinstance(k, str) and k.startswith('#'):
+            out[eval(k[1:])] = v
+    return out
+
+
+def walk_env(cfg: CFG, path: List[Edge], init_env: Env = ()) -> Env:
+    """Environment (boolean-local tokens and decisions) after walking *path*."""
+    flags = flag_vars(cfg)
+    env = init_env
+    for e in path:
+        env2 = _step(cfg, flags, e.src, env, e)
+        if env2 is None:
+            return env
+        env = env2
     return env
 
 
@@ -182,6 +268,34 @@ def search(cfg: CFG, sources: Iterable[Node], targets: Optional[Set[int]] = None
     return reached, None
 
 
+def envs_at(cfg: CFG, node: Node, limit: int = 64) -> List[Env]:
+    """Distinct path environments (boolean-local decisions, event flags) with which *node* can be
+    reached from the entry; used as `init_env` of queries that start in the middle of a function."""
+    flags = flag_vars(cfg)
+    seen: Set[Tuple[int, Env]] = set()
+    out: List[Env] = []
+    dq: deque = deque([(cfg.entry.id, ())])
+    seen.add((cfg.entry.id, ()))
+    while dq:
+        nid, env = dq.popleft()
+        if nid == node.id:
+            if env not in out:
+                out.append(env)
+                if len(out) >= limit:
+                    break
+            continue
+        n = cfg.nodes[nid]
+        for e in cfg.succ[nid]:
+            env2 = _step(cfg, flags, n, env, e)
+            if env2 is None:
+                continue
+            st = (e.dst.id, env2)
+            if st not in seen:
+                seen.add(st)
+                dq.append(st)
+    return out or [()]
+
+
 def reach(cfg: CFG, sources: Iterable[Node], avoid: Optional[Iterable[Node]] = None,
           edge_ok: Optional[EdgeFilter] = None, flag_sensitive: bool = True,
           start_edges: Optional[Iterable[Edge]] = None) -> Set[int]:
@@ -193,22 +307,55 @@ def reach(cfg: CFG, sources: Iterable[Node], avoid: Optional[Iterable[Node]] = N
 def find_path(cfg: CFG, sources: Iterable[Node], targets: Iterable[Node],
               avoid: Optional[Iterable[Node]] = None, edge_ok: Optional[EdgeFilter] = None,
               flag_sensitive: bool = True,
-              start_edges: Optional[Iterable[Edge]] = None) -> Optional[List[Edge]]:
+              start_edges: Optional[Iterable[Edge]] = None,
+              init_envs: Optional[List[Env]] = None) -> Optional[List[Edge]]:
     """Shortest path from any source to any target not entering *avoid*."""
     av = {n.id for n in avoid} if avoid else set()
     tg = {n.id for n in targets}
-    _, p = search(cfg, sources, tg, av - tg, edge_ok, flag_sensitive, start_edges)
-    return p
+    sources = list(sources)
+    start_edges = list(start_edges) if start_edges is not None else None
+    if init_envs is not None or not flag_sensitive:
+        for env in (init_envs or [()]):
+            _, p = search(cfg, sources, tg, av - tg, edge_ok, flag_sensitive, start_edges, init_env=env)
+            if p is not None:
+                return p
+        return None
+    # a query that starts in the middle of the function inherits what the paths leading there decided
+    if start_edges is not None:
+        by_src: Dict[int, List[Edge]] = {}
+        for e in start_edges:
+            by_src.setdefault(e.src.id, []).append(e)
+        for sid, es in by_src.items():
+            for env in _envs_cached(cfg, cfg.nodes[sid]):
+                _, p = search(cfg, [], tg, av - tg, edge_ok, flag_sensitive, es, init_env=env)
+                if p is not None:
+                    return p
+        return None
+    for s_ in sources:
+        envs = [()] if s_ is cfg.entry else _envs_cached(cfg, s_)
+        for env in envs:
+            _, p = search(cfg, [s_], tg, av - tg, edge_ok, flag_sensitive, None, init_env=env)
+            if p is not None:
+                return p
+    return None
+
+
+def _envs_cached(cfg: CFG, node: Node) -> List[Env]:
+    cache = cfg.__dict__.setdefault('_envs_at', {})
+    if node.id not in cache:
+        cache[node.id] = envs_at(cfg, node)
+    return cache[node.id]
 
 
 def must_pass(cfg: CFG, sources: Iterable[Node], targets: Iterable[Node],
               via: Iterable[Node], edge_ok: Optional[EdgeFilter] = None,
-              start_edges: Optional[Iterable[Edge]] = None) -> Optional[List[Edge]]:
+              start_edges: Optional[Iterable[Edge]] = None,
+              init_envs: Optional[List[Env]] = None) -> Optional[List[Edge]]:
     """None if every path sources->targets passes a `via` node; otherwise the
     shortest witness path that avoids all `via` nodes."""
     via = list(via)
     tg = [t for t in targets if t not in via]
-    return find_path(cfg, sources, tg, avoid=via, edge_ok=edge_ok, start_edges=start_edges)
+    return find_path(cfg, sources, tg, avoid=via, edge_ok=edge_ok, start_edges=start_edges, init_envs=init_envs)
 
 
 def render(cfg: CFG, path: Optional[List[Edge]]) -> List[str]:
